@@ -20,6 +20,7 @@ func init() {
 	vHarnesses["VerifC10LineContent"] = VerifC10LineContent
 	vHarnesses["VerifC10LineMeaning"] = VerifC10LineMeaning
 	vHarnesses["VerifC10RejectedLine"] = VerifC10RejectedLine
+	vHarnesses["VerifFieldsModel"] = VerifFieldsModel
 }
 
 // formatStep is the per-line step of `regex format` exactly as Parse(true) + processFile compose it:
@@ -119,6 +120,43 @@ func VerifC10LineMeaning() {
 	if kb == 0 && !strings.HasPrefix(before, "##!") {
 		vAssert(after == before, "C10 an entry keeps every byte apart from its indentation")
 	}
+	if kb >= 6 && kb <= 8 {
+		// flags, prefix and suffix values are literal text of the generated regex: inner white space included
+		vAssert(parser.VerifParseValue(after) == parser.VerifParseValue(before), "C10 the flags/prefix/suffix value the compiler reads is the same before and after format")
+	}
+}
+
+// refFields is strings.Fields for ASCII subjects written as a plain loop (executed instruction by instruction by the
+// engine); VerifFieldsModel has the solver compare it with the engine's contract model of strings.Fields.
+func refFields(s string) []string {
+	out := []string{}
+	start := -1
+	for i := 0; i < len(s); i++ {
+		c := s[i]
+		sp := c == ' ' || c == '\t' || c == '\n' || c == '\v' || c == '\f' || c == '\r'
+		if sp {
+			if start >= 0 {
+				out = append(out, s[start:i])
+				start = -1
+			}
+		} else if start < 0 {
+			start = i
+		}
+	}
+	if start >= 0 {
+		out = append(out, s[start:])
+	}
+	return out
+}
+
+// translator validation: the engine's model of strings.Fields agrees with the reference loop on every ASCII subject
+func VerifFieldsModel() {
+	l := vNondetStrA("line", 8)
+	a := strings.Fields(l)
+	b := refFields(l)
+	vReach("split")
+	vAssert(len(a) == len(b), "strings.Fields model: number of fields")
+	vAssert(strings.Join(a, "|") == strings.Join(b, "|"), "strings.Fields model: fields")
 }
 
 const (
